@@ -82,6 +82,28 @@ def prepare():
         W._CLS["GpuPlainServer"] = GpuPlainServer
         W.ORDER.insert(W.ORDER.index("GPUServer") + 1, "GpuPlainServer")
         W.RANK_GROUP["GpuPlainServer"] = "Server"
+        # harness-side plain job for gpu servers: a plain Job whose compute default is in gpu and whose `server`
+        # parameter is annotated with the common server base class (a GPUServer is not a `Server`), so that the
+        # check does not depend on whether the library validates the type of a link.
+        from efootprint.core.usage.job import Job
+        from efootprint.core.hardware.server_base import ServerBase
+        from efootprint.abstract_modeling_classes.explainable_objects import ExplainableQuantity
+
+        class GpuPlainJob(Job):
+            @classmethod
+            def default_values(cls):
+                d = Job.default_values()
+                d["compute_needed"] = SourceValue(1 * u.gpu)
+                return d
+
+            def __init__(self, name: str, server: ServerBase, data_transferred: ExplainableQuantity,
+                         data_stored: ExplainableQuantity, request_duration: ExplainableQuantity,
+                         compute_needed: ExplainableQuantity, ram_needed: ExplainableQuantity):
+                super().__init__(name, server, data_transferred, data_stored, request_duration, compute_needed,
+                                 ram_needed)
+        W._CLS["GpuPlainJob"] = GpuPlainJob
+        W.ORDER.insert(W.ORDER.index("GpuJob") + 1, "GpuPlainJob")
+        W.RANK_GROUP["GpuPlainJob"] = "Job"
     # --- allowed categorical values, as the library declares them
     from efootprint.builders.services.video_streaming import VideoStreamingJob
     from efootprint.builders.services.web_application import get_ecobenchmark_technologies, get_implementation_details
@@ -267,7 +289,8 @@ def make_world(kind, case, mixed):
         raise ValueError(kind)
     if mixed:
         if kind == "genai":   # RAM-heavy plain job so that the RAM dimension (hence the service's base RAM) is binding
-            W.add(w, "jp", "GpuJob", server=link("sv"), ram_needed=Q(4, "gigabyte"), compute_needed=Q(0.01, "gpu"),
+            W.add(w, "jp", "GpuPlainJob", server=link("sv"), ram_needed=Q(4, "gigabyte"),
+                  compute_needed=Q(0.01, "gpu"),
                   request_duration=Q(90, "minute"))
         else:
             W.add(w, "jp", "Job", server=link("sv"), ram_needed=Q(200, "megabyte"), request_duration=Q(90, "minute"))
@@ -419,7 +442,8 @@ def snap_diff(a, b):
 
 
 _ORDER = ["UsageJourneyStep", "UsageJourney", "Device", "Country", "UsagePattern", "VideoStreaming", "WebApplication",
-          "GenAIModel", "VideoStreamingJob", "WebApplicationJob", "GenAIJob", "Job", "GpuJob", "Network", "GPUServer",
+          "GenAIModel", "VideoStreamingJob", "WebApplicationJob", "GenAIJob", "Job", "GpuJob", "GpuPlainJob", "Network",
+          "GPUServer",
           "BoaviztaCloudServer", "Server", "GpuPlainServer", "Storage", "System"]
 
 
@@ -464,7 +488,7 @@ def twin_world(w, m):
             na = {"server": link(O[a["service"][1]]["attrs"]["server"][1])}
             for p in JOB_PARAMS:
                 na[p] = W.value_to_spec(getattr(live, p))
-            t["objects"][n] = {"cls": "GpuJob" if "gpu" in na["compute_needed"][2] else "Job", "attrs": na}
+            t["objects"][n] = {"cls": "GpuPlainJob" if "gpu" in na["compute_needed"][2] else "Job", "attrs": na}
             continue
         if cls == "BoaviztaCloudServer":
             a.pop("provider")
@@ -635,7 +659,7 @@ def run_base(kind, case, mixed, res):
                 "detail": {"n_divergent": len(d), "first": [list(f[0]), "builder model: " + f[1], "plain model: " + f[2]],
                            "all_divergent": sorted({f"{k[0]}.{k[1]}" for k, _, _ in d})[:30],
                            "twin_objects": {n: tw["objects"][n] for n in tw["objects"]
-                                            if tw["objects"][n]["cls"] in ("Job", "GpuJob", "Server", "GpuPlainServer")}},
+                                            if tw["objects"][n]["cls"] in ("Job", "GpuPlainJob", "Server", "GpuPlainServer")}},
                 "task": sub, "size": 1})
     res["outcomes"].append(S.digest(snap_b, 9))
     res["counters"]["base_cases"] += 1
@@ -852,7 +876,8 @@ def main(tier):
                        "between a reference prediction (stated rule / plain twin / fresh build) and the implementation",
     }
     return run.finish(cov, assumptions=[
-        "plain twins of gpu objects are harness-side subclasses of Job / Server that only change the default unit",
+        "plain twins of gpu objects are harness-side subclasses of Job / Server that only change the default unit "
+        "(and, for the job, the annotation of `server`)",
         "reference data: Ecobenchmark CSV read with csv, EcoLogits models.json read with json (range = midpoint), "
         "boaviztapi router called directly; allowed-value lists are taken from the library's list_values",
         "footprints compared: energy_footprint, instances_fabrication_footprint, devices_* footprints, "
